@@ -296,3 +296,41 @@ def parse_coq_tokens(line):
         else:
             out.append(("C", bytes.fromhex(rest).decode("utf8", "surrogateescape")))
     return out
+
+
+def expected_keys(v, st, hyd=True, item=None, counter=None, out=None):
+    """hydration keys (element part) of the EMITTED elements in document order, from the view alone: elements take keys in
+    creation order (pre-order), children of Show are created even when hidden, NoHydrate creates without keys"""
+    if counter is None:
+        counter, out = [0], []
+    k = v[0]
+
+    def kids(vs, emit=True, hyd=hyd, item=item):
+        sub = []
+        for c in vs:
+            expected_keys(c, st, hyd, item, counter, sub)
+        if emit:
+            out.extend(sub)
+
+    if k == "el":
+        if hyd:
+            out.append(counter[0])
+            counter[0] += 1
+        if v[1] not in VOID:
+            kids(v[3])
+    elif k == "dyn":
+        kids(v[2] if st["b"].get(v[1]) else v[3])
+    elif k == "show":
+        kids(v[2], emit=bool(st["b"].get(v[1])))
+    elif k == "list":
+        for it in st["l"].get(v[2], []):
+            kids(v[3], item=it)
+    elif k in ("frag", "comp"):
+        kids(v[1])
+    elif k == "nohydrate":
+        kids(v[1], hyd=False)
+    elif k == "nossr":
+        if hyd:
+            out.append(counter[0])
+            counter[0] += 1
+    return out
